@@ -1663,7 +1663,12 @@ class Parallel(Logger):
         # remaining jobs.
         self._iterating = False
         if self.dispatch_one_batch(iterator):
-            self._iterating = self._original_iterator is not None
+            # The completion callback of that first batch may exhaust the
+            # input and reset these two attributes concurrently (under the
+            # lock): reading the one and writing the other must be atomic, or
+            # _iterating could stay True for ever.
+            with self._lock:
+                self._iterating = self._original_iterator is not None
 
         while self.dispatch_one_batch(iterator):
             pass
